@@ -38,8 +38,10 @@ META = {
 
 TLC_OPTS = {"heap": "2g", "env": {"JAVA_TOOL_OPTIONS": "-XX:ParallelGCThreads=2"}}
 INVS = ["Sane", "RefsExact", "QuoteInert"]
-STAGES = ["deps", "get", "exec", "call", "pdeps", "pcall"]
-CLAUSE = {"deps": "Deps", "get": "Get", "exec": "Exec", "call": "Call", "pdeps": "PickleDeps", "pcall": "PickleCall"}
+STAGES = ["deps", "get", "exec", "call", "pdeps", "pcall", "ldeps", "kdeps"]
+DEP_STAGES = ("deps", "pdeps", "ldeps", "kdeps")
+CLAUSE = {"deps": "Deps", "get": "Get", "exec": "Exec", "call": "Call", "pdeps": "PickleDeps", "pcall": "PickleCall",
+          "ldeps": "LegacyDeps", "kdeps": "LegacyDeps"}
 
 
 def _raised(ex):
@@ -61,7 +63,8 @@ def observe(fam, gs, vals, seed):
     expected = {k: H.to_py(v) for k, v in zip(keys, vals)}
     obs = [{s: {"t": "raised", "s": "NotObserved"} for s in STAGES} for _ in gs]
     for o in obs:
-        o["deps"] = o["pdeps"] = [{"t": "raised", "s": "NotObserved"}]
+        for st in DEP_STAGES:
+            o[st] = [{"t": "raised", "s": "NotObserved"}]
     try:
         if fam == "legacy":
             order = list(range(len(gs)))
@@ -78,7 +81,7 @@ def observe(fam, gs, vals, seed):
     except Exception as ex:  # noqa: BLE001
         for o in obs:
             for s in STAGES:
-                o[s] = [_raised(ex)] if s in ("deps", "pdeps") else _raised(ex)
+                o[s] = [_raised(ex)] if s in DEP_STAGES else _raised(ex)
         return obs
     # whole-graph evaluations
     try:
@@ -96,6 +99,13 @@ def observe(fam, gs, vals, seed):
         o = obs[i]
         o["get"] = H.norm(got[k]) if k in got else (_raised(gerr) if gerr else {"t": "raised", "s": "Missing"})
         o["exec"] = H.norm(ex_res[k]) if k in ex_res else (_raised(eerr) if eerr else {"t": "raised", "s": "Missing"})
+        # the dependency report of the graph helpers (what cull / order / fuse see)
+        for st, fn in (("ldeps", lambda: dask.core.get_dependencies(dsk, k)),
+                       ("kdeps", lambda: dask.core.keys_in_tasks(set(dsk), [dsk[k]], as_list=True))):
+            try:
+                o[st] = sorted((H.norm(d) for d in set(fn())), key=H._sortkey)
+            except Exception as ex:  # noqa: BLE001
+                o[st] = [_raised(ex)]
         node = conv.get(k)
         if node is None:
             for s in ("deps", "pdeps"):
@@ -126,11 +136,11 @@ def judge(case, obs):
         refs = sorted(_ck(r) for r in case["refs"][i])
         bad = []
         for s in STAGES:
-            if s in ("deps", "pdeps"):
+            if s in DEP_STAGES:
                 ok = sorted(_ck(d) for d in o[s]) == refs
             else:
                 ok = _ck(o[s]) == want
-            if not ok:
+            if not ok and CLAUSE[s] not in bad:
                 bad.append(CLAUSE[s])
         if bad:
             out.append((i, bad))
@@ -158,7 +168,7 @@ def classify(fam, gs, broken):
     (in graph order) whose own node is wrong - node(values) or dependencies, which are judged with correct
     inputs - so that keys which merely inherit a wrong value do not name the violation."""
     keyset = {_ck(x["k"]) for x in gs}
-    roots = [b for b in broken if {"Call", "Deps", "PickleCall", "PickleDeps"} & set(b[1])] or broken
+    roots = [b for b in broken if {"Call", "Deps", "PickleCall", "PickleDeps", "LegacyDeps"} & set(b[1])] or broken
     i, clauses = roots[0]
     x = gs[i]["e"]
     feats = []
@@ -181,13 +191,12 @@ def classify(fam, gs, broken):
             feats.append("int-key")
 
     _walk(x, visit)
-    if fam == "legacy" and "dict-content" in feats:
-        # one root cause whatever the position of the dict and whichever clause shows it
-        return "legacy:dict-content-not-evaluated"
     order = ["dict-content", "kwargs", "set-container", "tuple-container", "tuple-key", "int-key", "quoted",
              "dict-literal", "tuple-literal"]
     feat = next((f for f in order if f in feats), "plain")
     first = clauses[0]
+    if set(clauses) == {"LegacyDeps"}:
+        first = "LegacyDeps"
     group = "Values" if first in ("Get", "Exec", "Call") else first
     return "%s:%s:%s:top=%s" % (fam, feat, group, x["e"])
 
@@ -259,17 +268,18 @@ def absorb(ctx, jobs, results, report=True):
 
 _RE_CODE = re.compile(r'\{"([0-9a-zA-Z+-]+)"\}')
 _DIGITS = "0123456789abcdefghijklmnopqrstuvwxyzABCDEFGHIJKLMNOPQRSTUVWXYZ+-"
-_BITS = [("Deps", 1), ("Get", 2), ("Exec", 4), ("Call", 8), ("PickleDeps", 16), ("PickleCall", 32)]
+_BITS = [("Deps", 1), ("Get", 2), ("Exec", 4), ("Call", 8), ("PickleDeps", 16), ("PickleCall", 32), ("LegacyDeps", 64)]
 
 
 def decode_verdict(text):
-    """TaskSpecTrace!Bad prints one base-64 digit per key: the bit mask of its broken clauses."""
+    """TaskSpecTrace!Bad prints two base-64 digits (low, high) per key: the bit mask of its broken clauses."""
     m = _RE_CODE.search(text)
-    if not m:
+    if not m or len(m.group(1)) % 2:
         raise MachineryError("cannot read the TLC verdict %r" % (text,))
     out = {}
-    for pos, ch in enumerate(m.group(1)):
-        mask = _DIGITS.index(ch)
+    code = m.group(1)
+    for pos in range(len(code) // 2):
+        mask = _DIGITS.index(code[2 * pos]) + 64 * _DIGITS.index(code[2 * pos + 1])
         if mask:
             out[pos] = {c for c, w in _BITS if mask & w}
     return out
@@ -513,7 +523,9 @@ def _mini_cases():
     base_t = [{"k": A, "e": call("fa")}, {"k": X, "e": call("fx", rf(A))}, {"k": F5, "e": call("f5")}]
     for x in [call("c1", at(A), at(X)), call("c1", {"e": "list", "xs": [at(X), at(_v(1))]}, at(F5)),
               call("c1", call("c2", at(X)), {"e": "quote", "v": A}), {"e": "list", "xs": [at(A), call("c1", at(X))]},
-              call("c1", at(_v(("x", 9))), at(_v("zz")))]:
+              call("c1", at(_v(("x", 9))), at(_v("zz"))),
+              call("c1", {"e": "dict", "ks": ["p", "q"], "xs": [at(A), {"e": "list", "xs": [at(X)]}]}),
+              {"e": "list", "xs": [{"e": "dict", "ks": ["p"], "xs": [call("c2", at(F5))]}]}]:
         out.append(("legacy", base_l + [{"k": OUT, "e": x}]))
     for x in [call("c1", rf(A), rf(X)), call("c1", rf(X), p=rf(A)), call("c1", {"e": "list", "xs": [rf(X), rf(A)]}),
               call("c1", {"e": "dict", "ks": ["p", "q"], "xs": [rf(A), rf(X)]}), call("c1", {"e": "tuple", "xs": [rf(F5), {"e": "quote", "v": A}]}),
@@ -538,6 +550,7 @@ def _mini_run(ctx):
 
 def selftest(ctx):
     import dask._task_spec as ts
+    import dask.core
     from ..srcmutant import mutant
     ok = True
     base = _mini_run(ctx)
@@ -554,6 +567,10 @@ def selftest(ctx):
          'self.kwargs["constructor"] = self.__class__.constructor', "pass"),
         ("execute_graph: results are released although they were requested", ts, "execute_graph",
          "if refcount[dep] == 0 and keys and dep not in keys:", "if refcount[dep] == 0 and keys:"),
+        ("keys_in_tasks: walks the keys of a dict argument instead of its values", dask.core, "keys_in_tasks",
+         "work.extend(w.values())", "work.extend(w)"),
+        ("keys_in_tasks: does not look inside lists", dask.core, "keys_in_tasks",
+         "            elif typ is list:\n                work.extend(w)\n", ""),
         ("convert_legacy_task: integer keys are no longer recognised as references", ts, "convert_legacy_task",
          "if isinstance(task, (int, float, str, tuple)):", "if isinstance(task, (float, str, tuple)):"),
         ("Task.__call__: nested nodes are evaluated on all values instead of their own dependencies, TaskRef not resolved", ts,
